@@ -43,13 +43,13 @@ NATIVE_UNITS = {
                              "role": "witness", "for_fns": ["eval_import_set"]},
     "vector_kind_witness": {"file": "src/interpreter/interpreter.rs", "source": "vector_builtins.rs",
                             "modpath": "interpreter::interpreter", "test": "verif_native_vector_kind_witness", "role": "witness",
-                            "for_fns": ["vector_ref", "make_vector", "vector_length", "vector", "car", "cdr", "cons", "is_pair", "not", "apply", "abs", "floor", "ceiling", "exact"]},
+                            "for_fns": ["vector_ref", "vector_set", "make_vector", "vector_length", "vector", "car", "cdr", "cons", "is_pair", "not", "apply", "abs", "floor", "ceiling", "exact"]},
     "vector_panic_witness": {"file": "src/interpreter/interpreter.rs", "source": "vector_builtins.rs",
                              "modpath": "interpreter::interpreter", "test": "verif_native_vector_panic_witness", "role": "witness",
-                             "for_fns": ["vector_ref", "make_vector", "vector_length", "vector", "car", "cdr", "cons", "is_pair", "not", "apply", "abs", "floor", "ceiling", "exact"]},
+                             "for_fns": ["vector_ref", "vector_set", "make_vector", "vector_length", "vector", "car", "cdr", "cons", "is_pair", "not", "apply", "abs", "floor", "ceiling", "exact"]},
     "vector_identity_witness": {"file": "src/interpreter/interpreter.rs", "source": "vector_builtins.rs",
                                 "modpath": "interpreter::interpreter", "test": "verif_native_vector_identity_witness", "role": "witness",
-                                "for_fns": ["vector_ref", "make_vector", "vector_length", "vector", "as_mut", "ptr_eq"]},
+                                "for_fns": ["vector_ref", "make_vector", "vector_length", "vector", "vector_set", "as_mut", "ptr_eq"]},
     "macro_witness": {"file": "src/interpreter/interpreter.rs", "source": "macro_rules.rs",
                       "modpath": "interpreter::interpreter", "test": "verif_native_macro_witness", "role": "witness",
                       "for_fns": ["match_datum", "transform"]},
@@ -162,18 +162,21 @@ PROPS = {
                         "str::parse::<T> is a function of the text (uninterpreted)"],
     },
     "C03": {
-        "verus": ["valref_mut", "base_pairs"], "kani": ["valref"], "native": ["vector_identity_witness"],
+        "verus": ["valref_mut", "base_pairs_identity"], "kani": ["valref"], "native": ["vector_identity_witness"],
         "level": "other",
         "explanation": "BOUNDED stand-in (vectors of length 3 at element type u8, kani::unwind 6), not a proof: on ValueReference<Vec<T>> -- the "
                        "type Value::Vector is built on -- a clone is the same object (ptr_eq) and a write through either alias is seen "
                        "through the other; two separately created vectors are distinct and never see each other's writes; a literal "
                        "(immutable) vector rejects mutation with RequiresMutable and keeps its contents; ptr_eq never relates a mutable "
                        "and an immutable reference. The set!/frame half of C03 (LexicalScope over Rc<cell::RefCell<HashMap<String,_>>>) "
-                       "is outside both verifiers.",
+                       "is outside both verifiers. "
+                       "UNBOUNDED (Verus, unit base_pairs_identity): the builtins vector / make-vector / vector-length / vector-ref / vector-set! "
+                       "over a ghost contents function of the shared cell: (vector a ...) holds exactly its arguments, every slot of "
+                       "(make-vector n x) IS x, vector-ref returns the element held, vector-set! on a mutable vector stores exactly the given "
+                       "object at exactly that index of THE vector passed, on a literal vector it is the RequiresMutable error.",
         "unverified": ["set! and frames: LexicalScope::set/get/define, a fresh child frame per call in apply_scheme_procedure",
-                       "the builtin vector-set! itself (a write through the shared RefCell: no Verus model; Kani: no result in 10 min) -- "
-                       "covered only by the thorough-tier witness search vector_identity_witness; vector / make-vector / "
-                       "vector-length / vector-ref ARE under contract (unit base_pairs, over a ghost vec_contents)",
+                       "that releasing a RefMut guard publishes the write to every alias (the meaning of the ghost `stored`): Rc<RefCell> semantics, "
+                       "checked only by the bounded Kani harnesses of unit valref and the witness search vector_identity_witness",
                        "vectors longer than 3, element types other than u8 (parametricity in T is not machine-checked)"],
         "assumptions": ["RefCell's dynamic borrow state is not modelled by Verus (a double borrow_mut would panic); Kani executes the real RefCell"],
     },
